@@ -30,24 +30,24 @@ type deferred struct {
 }
 
 type Frame struct {
-	x       *VC
-	fn      *ssa.Function
-	vals    map[ssa.Value]*Val
-	depth   int
-	top     bool
-	rets    []retPoint
-	defers  []deferred
-	binds   []*Val
-	params  []*Val
-	entrySt *State // state at function entry (for old())
-	loopOrd map[*ssa.BasicBlock]int
-	headers map[*ssa.BasicBlock]bool
-	reach   map[*ssa.BasicBlock]string
-	out     map[*ssa.BasicBlock]*State
-	econd   map[[2]int]string
-	hdrDec  map[*ssa.BasicBlock]string
-	hdrEnv  map[*ssa.BasicBlock]map[string]*Val
-	hdrAuto map[*ssa.BasicBlock][]string
+	x          *VC
+	fn         *ssa.Function
+	vals       map[ssa.Value]*Val
+	depth      int
+	top        bool
+	rets       []retPoint
+	defers     []deferred
+	binds      []*Val
+	params     []*Val
+	entrySt    *State // state at function entry (for old())
+	loopOrd    map[*ssa.BasicBlock]int
+	headers    map[*ssa.BasicBlock]bool
+	reach      map[*ssa.BasicBlock]string
+	out        map[*ssa.BasicBlock]*State
+	econd      map[[2]int]string
+	hdrDec     map[*ssa.BasicBlock]string
+	hdrEnv     map[*ssa.BasicBlock]map[string]*Val
+	hdrAuto    map[*ssa.BasicBlock][]string
 	autoExcept map[string][]string // component key -> objects a `T.f @ obj` modifies clause lets change
 }
 
@@ -408,10 +408,7 @@ func (fr *Frame) step(ins0 ssa.Instruction, st *State, reach string, b *ssa.Basi
 		l := x.toIdx(fr.value(ins.Len))
 		x.addObl("safety:makeslice-len", "", x.posOf(ins), reach, x.cmpS("<=", x.ilit(0), l))
 		et := ins.Type().Underlying().(*types.Slice).Elem()
-		es := x.sortOf(et)
-		if es == "" {
-			es = "Int"
-		}
+		es := x.elemSortOf(et)
 		fr.vals[ins] = &Val{K: KSlice, Arr: x.constArray(es), Off: x.ilit(0), Len: l, ES: es, GT: ins.Type()}
 	case *ssa.MakeChan:
 		fr.vals[ins] = x.scalar(x.allocRef(st, reach, "chan", ins.Type()), ins.Type())
@@ -577,7 +574,7 @@ func (x *VC) allocRef(st *State, reach, hint string, t types.Type) string {
 	r := x.declare("new_"+hint, "Int")
 	al := x.allocComp()
 	cur := x.get(st, al)
-	x.fact("(> "+r+" 0)")
+	x.fact("(> " + r + " 0)")
 	x.fact(sNot(sSel(cur, r)))
 	if _, isI := t.Underlying().(*types.Interface); isI {
 		// a fresh object behind an interface: its dynamic type is one of the implementers
@@ -644,8 +641,9 @@ func (x *VC) zeroFields(st *State, r string, owner types.Type, u *types.Struct, 
 }
 
 func namedOf(t types.Type) *types.Named {
+	t = types.Unalias(t)
 	if p, ok := t.(*types.Pointer); ok {
-		t = p.Elem()
+		t = types.Unalias(p.Elem())
 	}
 	n, _ := t.(*types.Named)
 	return n
@@ -715,10 +713,19 @@ func (fr *Frame) fieldAddr(ins ssa.Instruction, base *Val, field int, st *State,
 		}
 		f := su.Field(field)
 		na := *a
+		if a.Kind == ACell && a.CIdx != "" {
+			// &cell[i].f : the field path applies AFTER the index
+			if x.dtSort(a.ElemT) == "" {
+				x.refuse("field of an array element of unmodelled struct type %s", a.ElemT)
+			}
+			na.Post = append(append([]int{}, a.Post...), field)
+			na.ElemT = f.Type()
+			return &Val{K: KAddr, GT: resT, A: &na}
+		}
 		na.Path = append(append([]int{}, a.Path...), field)
 		na.PathN = append(append([]string{}, a.PathN...), f.Name())
 		na.ElemT = f.Type()
-		if a.Kind == AGlobal || a.Kind == AIndex || a.Kind == ADeref {
+		if a.Kind == AIndex || a.Kind == ADeref {
 			x.refuse("field of %v address", a.Kind)
 		}
 		return &Val{K: KAddr, GT: resT, A: &na}
@@ -774,6 +781,17 @@ func (x *VC) loadAddr(a *Addr, st *State) *Val {
 			if v.K != KSlice {
 				x.refuse("cell index into non-array")
 			}
+			if len(a.Post) > 0 {
+				at := v.GT.Underlying().(*types.Array).Elem()
+				ev := x.elemVal(v, a.CIdx, at, st)
+				for _, i := range a.Post {
+					if ev.K != KStruct {
+						x.refuse("field path into non-struct array element")
+					}
+					ev = ev.Fs[i]
+				}
+				return ev
+			}
 			return x.elemVal(v, a.CIdx, t, st)
 		}
 		return v
@@ -808,18 +826,15 @@ func (x *VC) loadAddr(a *Addr, st *State) *Val {
 			}
 			return v
 		case *types.Slice:
-			es := x.sortOf(u.Elem())
-			if es == "" {
-				es = "Int"
-			}
+			es := x.elemSortOf(u.Elem())
 			v := &Val{K: KSlice, ES: es, GT: t}
 			v.Arr = x.define("ldarr", fmt.Sprintf("(Array %s %s)", x.idxSort(), es), sSel(x.get(st, x.fieldComp(a, "#arr")), a.Base))
 			v.Off = x.define("ldoff", x.idxSort(), sSel(x.get(st, x.fieldComp(a, "#off")), a.Base))
 			v.Len = x.define("ldlen", x.idxSort(), sSel(x.get(st, x.fieldComp(a, "#len")), a.Base))
 			x.fact(sAnd(x.cmpS("<=", x.ilit(0), v.Len), x.cmpS("<=", x.ilit(0), v.Off)))
 			if x.mode == "math" {
-				x.fact("(<= "+v.Len+" 4611686018427387904)")
-				x.fact("(<= "+v.Off+" 4611686018427387904)")
+				x.fact("(<= " + v.Len + " 4611686018427387904)")
+				x.fact("(<= " + v.Off + " 4611686018427387904)")
 			}
 			return v
 		case *types.Array:
@@ -849,6 +864,9 @@ func (x *VC) loadGlobal(a *Addr, st *State) *Val {
 	if len(a.PathN) > 0 {
 		key += "." + strings.Join(a.PathN, ".")
 	}
+	if lit, ok := x.eng.globalConst[strings.TrimPrefix(key, "G|")]; ok {
+		return x.scalar(lit, t)
+	}
 	c := x.comp(key, "", s)
 	v := x.scalar(x.get(st, c), t)
 	x.typeFacts(v, st)
@@ -856,6 +874,12 @@ func (x *VC) loadGlobal(a *Addr, st *State) *Val {
 }
 
 func (x *VC) elemVal(sl *Val, idx string, t types.Type, st *State) *Val {
+	if t != nil {
+		if dn := x.dtSort(t); dn != "" && sl.ES == dn {
+			term := x.define("el", dn, sSel(sl.Arr, x.addS(sl.Off, idx)))
+			return x.unpackStruct(term, t, st)
+		}
+	}
 	s := x.sortOf(t)
 	if s == "" {
 		s = "Int"
@@ -873,7 +897,7 @@ func (x *VC) storeAddr(a *Addr, v *Val, st *State) {
 		if cur == nil {
 			cur = x.zero(a.Cell.Type().(*types.Pointer).Elem())
 		}
-		st.C[a.Cell] = x.updCell(cur, a.Path, a.CIdx, v)
+		st.C[a.Cell] = x.updCellPost(cur, a.Path, a.CIdx, a.Post, v, st)
 		if x.writeLog != nil {
 			x.writeLog["cell:"+a.Cell.Name()] = true
 		}
@@ -931,11 +955,47 @@ func (x *VC) storeAddr(a *Addr, v *Val, st *State) {
 	}
 }
 
+// updCellPost: like updCell, with a field path applied after the array index (&cell[i].f = v)
+func (x *VC) updCellPost(cur *Val, path []int, cidx string, post []int, v *Val, st *State) *Val {
+	if len(post) == 0 || cidx == "" {
+		return x.updCell(cur, path, cidx, v)
+	}
+	if len(path) > 0 {
+		if cur.K != KStruct {
+			x.refuse("cell path store into non-struct")
+		}
+		n := &Val{K: KStruct, GT: cur.GT, Fs: append([]*Val{}, cur.Fs...)}
+		n.Fs[path[0]] = x.updCellPost(cur.Fs[path[0]], path[1:], cidx, post, v, st)
+		return n
+	}
+	if cur.K != KSlice {
+		x.refuse("indexed cell store into non-array")
+	}
+	at := cur.GT.Underlying().(*types.Array).Elem()
+	ev := x.elemVal(cur, cidx, at, st)
+	var upd func(e *Val, p []int) *Val
+	upd = func(e *Val, p []int) *Val {
+		if len(p) == 0 {
+			return v
+		}
+		if e.K != KStruct {
+			x.refuse("field path into non-struct array element")
+		}
+		n := &Val{K: KStruct, GT: e.GT, Fs: append([]*Val{}, e.Fs...)}
+		n.Fs[p[0]] = upd(e.Fs[p[0]], p[1:])
+		return n
+	}
+	return x.updCell(cur, nil, cidx, upd(ev, post))
+}
+
 func (x *VC) updCell(cur *Val, path []int, cidx string, v *Val) *Val {
 	if len(path) == 0 {
 		if cidx != "" {
 			if cur.K != KSlice {
 				x.refuse("indexed cell store into non-array")
+			}
+			if v.K == KStruct && x.dtSort(v.GT) != "" && cur.ES == x.dtSort(v.GT) {
+				v = &Val{K: KScalar, T: x.packStruct(v), S: cur.ES, GT: v.GT}
 			}
 			if v.K != KScalar {
 				x.refuse("array cell element of composite type")
@@ -1445,9 +1505,34 @@ func (x *VC) makeInterface(v *Val, from, to types.Type, reach string, st *State)
 		x.refuse("boxing of composite inside specification")
 	}
 	r := x.declare("boxed", "Int")
-	x.fact("(> "+r+" 0)")
+	x.fact("(> " + r + " 0)")
 	x.fact(sEq("(dtype "+r+")", x.tag(from)))
+	if v.K == KSlice {
+		if ub := x.unboxSlice(r, from); ub != nil && ub.ES == v.ES {
+			x.fact(sAnd(sEq(ub.Arr, v.Arr), sEq(ub.Off, v.Off), sEq(ub.Len, v.Len)))
+		}
+	}
 	return &Val{K: KScalar, T: r, S: "Int", GT: to, Box: v}
+}
+
+// unboxSlice: the slice held by a boxed value, as uninterpreted functions of the box (so that a type
+// assertion in the code and a `.(as []T)` in a specification denote the same slice).
+func (x *VC) unboxSlice(ref string, t types.Type) *Val {
+	t = types.Unalias(t)
+	st, ok := t.Underlying().(*types.Slice)
+	if !ok {
+		return nil
+	}
+	es := x.elemSortOf(st.Elem())
+	base := "ubs_" + sanitize(shortTypeFull(t))
+	if !x.externs["decl:"+base] {
+		x.externs["decl:"+base] = true
+		x.emit(fmt.Sprintf("(declare-fun %s_arr (Int) (Array %s %s))", base, x.idxSort(), es))
+		x.emit(fmt.Sprintf("(declare-fun %s_off (Int) %s)", base, x.idxSort()))
+		x.emit(fmt.Sprintf("(declare-fun %s_len (Int) %s)", base, x.idxSort()))
+	}
+	r := &Val{K: KSlice, ES: es, GT: t, Arr: "(" + base + "_arr " + ref + ")", Off: "(" + base + "_off " + ref + ")", Len: "(" + base + "_len " + ref + ")"}
+	return r
 }
 
 func (x *VC) typeAssert(v *Val, at types.Type, commaOk bool, reach, pos string, resT types.Type, st *State) *Val {
@@ -1486,6 +1571,9 @@ func (x *VC) typeAssert(v *Val, at types.Type, commaOk bool, reach, pos string, 
 				x.typeFacts(val, st)
 			} else if v.Box != nil && types.Identical(v.Box.GT, at) {
 				val = v.Box
+			} else if ub := x.unboxSlice(v.T, at); ub != nil {
+				val = ub
+				x.assume(reach, sAnd(x.cmpS("<=", x.ilit(0), ub.Len), x.cmpS("<=", x.ilit(0), ub.Off)))
 			} else {
 				val = x.fresh(at, "unboxed", reach, st)
 			}
@@ -1573,7 +1661,7 @@ func (x *VC) appendVals(s, t *Val, resT types.Type, reach string) *Val {
 		as := fmt.Sprintf("(Array %s %s)", x.idxSort(), s.ES)
 		r := &Val{K: KSlice, Arr: x.define("app", as, arr), Off: s.Off, Len: x.define("applen", x.idxSort(), x.addS(s.Len, t.Len)), ES: s.ES, GT: resT}
 		if x.mode == "math" {
-			x.fact("(<= "+r.Len+" 4611686018427387904)")
+			x.fact("(<= " + r.Len + " 4611686018427387904)")
 		}
 		return r
 	}
@@ -1587,7 +1675,7 @@ func (x *VC) appendVals(s, t *Val, resT types.Type, reach string) *Val {
 	x.fact(fmt.Sprintf("(forall ((a %s)) (! (=> (and (<= %s a) (< a (+ %s %s))) (= (select %s a) (select %s a))) :pattern ((select %s a))))", is, s.Off, s.Off, s.Len, arr, s.Arr, arr))
 	x.fact(fmt.Sprintf("(forall ((a %s)) (! (=> (and (<= (+ %s %s) a) (< a (+ %s %s %s))) (= (select %s a) (select %s (+ %s (- a %s %s))))) :pattern ((select %s a))))", is, s.Off, s.Len, s.Off, s.Len, t.Len, arr, t.Arr, t.Off, s.Off, s.Len, arr))
 	r := &Val{K: KSlice, Arr: arr, Off: s.Off, Len: x.define("applen", is, x.addS(s.Len, t.Len)), ES: s.ES, GT: resT}
-	x.fact("(<= "+r.Len+" 4611686018427387904)")
+	x.fact("(<= " + r.Len + " 4611686018427387904)")
 	return r
 }
 
